@@ -840,6 +840,14 @@ class Sim:
                     h.probe("second_solve")
                     h.first_solution = sol
                     h.ev("second-solve")
+                    # the recorded history is kept per solve: step labels, times and frame numbers
+                    # start again, so history checks evaluate the run on the used solver (online
+                    # invariants have already judged every step of the first one)
+                    h.first = {"stages": h.stages, "frames": h.frames}
+                    h.stages = {"T": [], "S": []}
+                    h.frames = []
+                    self.cur = None
+                    self._call_checkers("on_new_solve", None)
                     sol = solver.solve()
                 h.solution = sol
                 h.outcome = "solution" if sol is not None else "none"
